@@ -24,6 +24,9 @@ Qed.
 Lemma lor_small_shiftl a b k : a < 2 ^ k -> N.lor a (N.shiftl b k) = a + b * 2 ^ k.
 Proof. intros Ha. rewrite N.lor_comm, lor_shiftl_small by exact Ha. lia. Qed.
 
+Lemma lor_small_mul a b k : a < 2 ^ k -> N.lor a (b * 2 ^ k) = a + b * 2 ^ k.
+Proof. intros Ha. rewrite <- (N.shiftl_mul_pow2 b k) at 1. apply lor_small_shiftl. exact Ha. Qed.
+
 Lemma pow2_pos k : 0 < 2 ^ k.
 Proof. apply N.neq_0_lt_0. apply N.pow_nonzero. lia. Qed.
 
